@@ -35,6 +35,11 @@ func NewStack(via string) (outer *fifo.Group, inner *fifo.Group) {
 	// flagged for bad framing is still stamped and checked for loops.
 	outer.SetAggregateErrors(true)
 
+	// The framing check runs first: hop-by-hop removal deletes
+	// Transfer-Encoding, which the check must see. The group aggregates
+	// errors, so a flagged request still passes the other members.
+	outer.AddRequestModifier(header.NewBadFramingModifier())
+
 	hbhm := header.NewHopByHopModifier()
 	outer.AddRequestModifier(hbhm)
 	outer.AddRequestModifier(header.NewForwardedModifier())
@@ -44,7 +49,6 @@ func NewStack(via string) (outer *fifo.Group, inner *fifo.Group) {
 	// and checked for loops.
 	vm := header.NewViaModifier(via)
 	outer.AddRequestModifier(vm)
-	outer.AddRequestModifier(header.NewBadFramingModifier())
 
 	inner = fifo.NewGroup()
 	outer.AddRequestModifier(inner)
